@@ -27,7 +27,7 @@ COMPONENTS = {
              'slimta.smtp.datareader.DataReader', 'slimta.smtp.io.IO'],
     'stub': ['SimLoop', 'SimSocket (segmentation, latency, read caps)'],
 }
-BUDGET = {'quick': 8000, 'thorough': 600000}
+BUDGET = {'quick': 30000, 'thorough': 600000}
 PROBES = ['dot-leading-line', 'bare-lf', 'bare-cr', 'no-final-newline',
           'empty-message', 'trailing-bytes', 'preloaded-buffer',
           'eod-split-across-reads', 'multi-part', 'lone-dot-line']
